@@ -87,7 +87,8 @@ def mc_batch(c, jobs, parallel=6):
 
 # ============================================================================ C18
 
-PORTS = {"p1": 4001, "p2": 4002}
+PORTS = {"p0": 0, "p1": 4001, "p2": 4002}      # p0: the client asks for port 0, the server allocates ALLOCATED
+ALLOCATED = 4900
 REPLY_NAMES = {MSG_REQUEST_SUCCESS: "REQUEST_SUCCESS", MSG_REQUEST_FAILURE: "REQUEST_FAILURE",
                MSG_CHANNEL_SUCCESS: "CHANNEL_SUCCESS", MSG_CHANNEL_FAILURE: "CHANNEL_FAILURE"}
 
@@ -101,6 +102,12 @@ class GrantServer(ns.LogServer):
     def check_channel_x11_request(self, channel, single_connection, auth_protocol, auth_cookie, screen_number):
         self._l("check_channel_x11_request")
         return self.x11_ok
+
+    def check_port_forward_request(self, address, port):
+        self._l("check_port_forward_request", address, port)
+        if not self.forward_ok:
+            return False
+        return ALLOCATED if port == 0 else port      # like sshd: port 0 = "pick one for me"
 
 
 def chanreq_payload(kind):
@@ -162,6 +169,7 @@ class RefusalSession:
         self.ts._ensure_authed = lambda ptype, message: None
         self.ch = self.sch = None
         self.gone = False
+        self.granted = {}
 
     # ---- synchronisation: the client has handled everything sent so far, the server has read every answer
     def settle(self):
@@ -233,12 +241,16 @@ class RefusalSession:
         elif op == "fwd":
             self.server.forward_ok = bool(flag)
             try:
-                tc.request_port_forward("127.0.0.1", PORTS[arg])
+                got_port = tc.request_port_forward("127.0.0.1", PORTS[arg])
+                if got_port != (PORTS[arg] or ALLOCATED):
+                    rec["extra"] = "request_port_forward returned %r" % (got_port,)
+                self.granted[arg] = got_port
             except paramiko.SSHException as e:
                 rec["raised"], rec["extra"] = True, repr(e)
         elif op == "cancel":
             try:
-                tc.cancel_port_forward("127.0.0.1", PORTS[arg])
+                # as the documentation says: cancel with the port number request_port_forward returned
+                tc.cancel_port_forward("127.0.0.1", self.granted.get(arg, PORTS[arg] or ALLOCATED))
             except paramiko.SSHException as e:
                 rec["raised"], rec["extra"] = True, repr(e)
         elif op in ("global", "open", "chanreq"):
